@@ -4,8 +4,9 @@ CONSTANTS
   KF = {}
   RecSet = {"4:a", "k:c"}
   Modes = {"min_max", "accept_any"}
+  IvSet = {"bad"}
   MaxBuf = 2
-  MaxNow = 1500
+  MaxNow = 2500
   D = 0
 CONSTRAINT Bound
 INVARIANTS I_NoMonitorFails I_C05 I_C07 I_C07b I_C17
